@@ -6,4 +6,5 @@ let table : (string * (val0 -> val0)) list = [
   "chk_c19_mdquery", chk_c19_mdquery;
   "chk_c06", chk_c06;
   "chk_c14", chk_c14;
+  "chk_c16", chk_c16;
 ]
